@@ -6,7 +6,7 @@ from .. import world as W
 ID = 'C17'
 LEVEL = 'fault_enumeration'
 LEVEL_TEXT = ('fault enumeration: every kind of rejected call of a fixed '
-              'catalogue (45 kinds) is injected at generated points of '
+              'catalogue (48 kinds) is injected at generated points of '
               'generated histories and, exhaustively, after every prefix of '
               'fixed histories at every argument position; holds on '
               'everything explored')
